@@ -1,24 +1,24 @@
 import Cvss.Base.Go
 set_option linter.unusedVariables false
 set_option maxRecDepth 100000
-/-! GENERATED from /repo/20 — do not edit -/
+/-! GENERATED from package 20 — do not edit -/
 namespace GenV20
 
-/-- Get  (/repo/20/cvss20.go:178:1) -/
---   r0 := (cvss20.u0 & 0b11000000) >> 6
---   r1 := (cvss20.u0 & 0b00110000) >> 4
---   r2 := (cvss20.u0 & 0b00001100) >> 2
---   r3 := cvss20.u0 & 0b00000011
---   r4 := (cvss20.u1 & 0b11000000) >> 6
---   r5 := (cvss20.u1 & 0b00110000) >> 4
---   r6 := (cvss20.u1 & 0b00001110) >> 1
---   r7 := ((cvss20.u1 & 0b00000001) << 2) | ((cvss20.u2 & 0b11000000) >> 6)
---   r8 := (cvss20.u2 & 0b00110000) >> 4
---   r9 := (cvss20.u2 & 0b00001110) >> 1
---   r10 := ((cvss20.u2 & 0b00000001) << 2) | ((cvss20.u3 & 0b11000000) >> 6)
---   r11 := (cvss20.u3 & 0b00110000) >> 4
---   r12 := (cvss20.u3 & 0b00001100) >> 2
---   r13 := cvss20.u3 & 0b00000011
+/-- Get  (cvss20.go) -/
+--   r0 := (Nat.shiftRight (Nat.land u0 (192 : Nat)) (6 : Nat))
+--   r1 := (Nat.shiftRight (Nat.land u0 (48 : Nat)) (4 : Nat))
+--   r2 := (Nat.shiftRight (Nat.land u0 (12 : Nat)) (2 : Nat))
+--   r3 := (Nat.land u0 (3 : Nat))
+--   r4 := (Nat.shiftRight (Nat.land u1 (192 : Nat)) (6 : Nat))
+--   r5 := (Nat.shiftRight (Nat.land u1 (48 : Nat)) (4 : Nat))
+--   r6 := (Nat.shiftRight (Nat.land u1 (14 : Nat)) (1 : Nat))
+--   r7 := (Nat.lor (Nat.mod (Nat.shiftLeft (Nat.land u1 (1 : Nat)) (2 : Nat)) 256) (Nat.shiftRight (Nat.land u2 (192 : Nat)) (6 : Nat)))
+--   r8 := (Nat.shiftRight (Nat.land u2 (48 : Nat)) (4 : Nat))
+--   r9 := (Nat.shiftRight (Nat.land u2 (14 : Nat)) (1 : Nat))
+--   r10 := (Nat.lor (Nat.mod (Nat.shiftLeft (Nat.land u2 (1 : Nat)) (2 : Nat)) 256) (Nat.shiftRight (Nat.land u3 (192 : Nat)) (6 : Nat)))
+--   r11 := (Nat.shiftRight (Nat.land u3 (48 : Nat)) (4 : Nat))
+--   r12 := (Nat.shiftRight (Nat.land u3 (12 : Nat)) (2 : Nat))
+--   r13 := (Nat.land u3 (3 : Nat))
 def Get_core (r0 : Nat) (r1 : Nat) (r2 : Nat) (r3 : Nat) (r4 : Nat) (r5 : Nat) (r6 : Nat) (r7 : Nat) (r8 : Nat) (r9 : Nat) (r10 : Nat) (r11 : Nat) (r12 : Nat) (r13 : Nat) (abv : (List Nat)) : ((List Nat) × Go.Err) :=
   let r := []
   let err := Go.errNil
@@ -234,7 +234,7 @@ def Get_core (r0 : Nat) (r1 : Nat) (r2 : Nat) (r3 : Nat) (r4 : Nat) (r5 : Nat) (
 def Get (u0 : Nat) (u1 : Nat) (u2 : Nat) (u3 : Nat) (abv : (List Nat)) : ((List Nat) × Go.Err) :=
   Get_core (Nat.shiftRight (Nat.land u0 (192 : Nat)) (6 : Nat)) (Nat.shiftRight (Nat.land u0 (48 : Nat)) (4 : Nat)) (Nat.shiftRight (Nat.land u0 (12 : Nat)) (2 : Nat)) (Nat.land u0 (3 : Nat)) (Nat.shiftRight (Nat.land u1 (192 : Nat)) (6 : Nat)) (Nat.shiftRight (Nat.land u1 (48 : Nat)) (4 : Nat)) (Nat.shiftRight (Nat.land u1 (14 : Nat)) (1 : Nat)) (Nat.lor (Nat.mod (Nat.shiftLeft (Nat.land u1 (1 : Nat)) (2 : Nat)) 256) (Nat.shiftRight (Nat.land u2 (192 : Nat)) (6 : Nat))) (Nat.shiftRight (Nat.land u2 (48 : Nat)) (4 : Nat)) (Nat.shiftRight (Nat.land u2 (14 : Nat)) (1 : Nat)) (Nat.lor (Nat.mod (Nat.shiftLeft (Nat.land u2 (1 : Nat)) (2 : Nat)) 256) (Nat.shiftRight (Nat.land u3 (192 : Nat)) (6 : Nat))) (Nat.shiftRight (Nat.land u3 (48 : Nat)) (4 : Nat)) (Nat.shiftRight (Nat.land u3 (12 : Nat)) (2 : Nat)) (Nat.land u3 (3 : Nat)) abv
 
-/-- validate  (/repo/20/cvss20.go:467:1) -/
+/-- validate  (cvss20.go) -/
 def validate (value : (List Nat)) (enabled : (List (List Nat))) : (Nat × Go.Err) :=
   F64.flet (0 : Nat) fun i =>
   let err := Go.errNil
@@ -248,7 +248,7 @@ def validate (value : (List Nat)) (enabled : (List (List Nat))) : (Nat × Go.Err
   | Go.Ctl.next i =>
   ((0 : Nat), (Go.Err.mk 4 []) /- ErrInvalidMetricValue -/)
 
-/-- Set  (/repo/20/cvss20.go:366:1) -/
+/-- Set  (cvss20.go) -/
 def Set (u0 : Nat) (u1 : Nat) (u2 : Nat) (u3 : Nat) (abv : (List Nat)) (value : (List Nat)) : (Nat × Nat × Nat × Nat × Go.Err) :=
   cond ((Go.strEq abv ([65, 86] : List Nat) /- AV -/))
     (match (GenV20.validate value [([76] : List Nat) /- L -/, ([65] : List Nat) /- A -/, ([78] : List Nat) /- N -/]) with
@@ -352,21 +352,21 @@ def Set (u0 : Nat) (u1 : Nat) (u2 : Nat) (u3 : Nat) (abv : (List Nat)) (value : 
       (u0, u1, u2, u3, Go.errNil)))
    ((u0, u1, u2, u3, (Go.Err.mk 101 abv) /- ErrInvalidMetric -/)))))))))))))))
 
-/-- get  (/repo/20/cvss20.go:358:1) -/
---   r0 := (cvss20.u0 & 0b11000000) >> 6
---   r1 := (cvss20.u0 & 0b00110000) >> 4
---   r2 := (cvss20.u0 & 0b00001100) >> 2
---   r3 := cvss20.u0 & 0b00000011
---   r4 := (cvss20.u1 & 0b11000000) >> 6
---   r5 := (cvss20.u1 & 0b00110000) >> 4
---   r6 := (cvss20.u1 & 0b00001110) >> 1
---   r7 := ((cvss20.u1 & 0b00000001) << 2) | ((cvss20.u2 & 0b11000000) >> 6)
---   r8 := (cvss20.u2 & 0b00110000) >> 4
---   r9 := (cvss20.u2 & 0b00001110) >> 1
---   r10 := ((cvss20.u2 & 0b00000001) << 2) | ((cvss20.u3 & 0b11000000) >> 6)
---   r11 := (cvss20.u3 & 0b00110000) >> 4
---   r12 := (cvss20.u3 & 0b00001100) >> 2
---   r13 := cvss20.u3 & 0b00000011
+/-- get  (cvss20.go) -/
+--   r0 := (Nat.shiftRight (Nat.land u0 (192 : Nat)) (6 : Nat))
+--   r1 := (Nat.shiftRight (Nat.land u0 (48 : Nat)) (4 : Nat))
+--   r2 := (Nat.shiftRight (Nat.land u0 (12 : Nat)) (2 : Nat))
+--   r3 := (Nat.land u0 (3 : Nat))
+--   r4 := (Nat.shiftRight (Nat.land u1 (192 : Nat)) (6 : Nat))
+--   r5 := (Nat.shiftRight (Nat.land u1 (48 : Nat)) (4 : Nat))
+--   r6 := (Nat.shiftRight (Nat.land u1 (14 : Nat)) (1 : Nat))
+--   r7 := (Nat.lor (Nat.mod (Nat.shiftLeft (Nat.land u1 (1 : Nat)) (2 : Nat)) 256) (Nat.shiftRight (Nat.land u2 (192 : Nat)) (6 : Nat)))
+--   r8 := (Nat.shiftRight (Nat.land u2 (48 : Nat)) (4 : Nat))
+--   r9 := (Nat.shiftRight (Nat.land u2 (14 : Nat)) (1 : Nat))
+--   r10 := (Nat.lor (Nat.mod (Nat.shiftLeft (Nat.land u2 (1 : Nat)) (2 : Nat)) 256) (Nat.shiftRight (Nat.land u3 (192 : Nat)) (6 : Nat)))
+--   r11 := (Nat.shiftRight (Nat.land u3 (48 : Nat)) (4 : Nat))
+--   r12 := (Nat.shiftRight (Nat.land u3 (12 : Nat)) (2 : Nat))
+--   r13 := (Nat.land u3 (3 : Nat))
 def get_core (r0 : Nat) (r1 : Nat) (r2 : Nat) (r3 : Nat) (r4 : Nat) (r5 : Nat) (r6 : Nat) (r7 : Nat) (r8 : Nat) (r9 : Nat) (r10 : Nat) (r11 : Nat) (r12 : Nat) (r13 : Nat) (abv : (List Nat)) : (List Nat) :=
   match (GenV20.Get_core r0 r1 r2 r3 r4 r5 r6 r7 r8 r9 r10 r11 r12 r13 abv) with
   | (str, err) =>
@@ -377,21 +377,21 @@ def get_core (r0 : Nat) (r1 : Nat) (r2 : Nat) (r3 : Nat) (r4 : Nat) (r5 : Nat) (
 def get (u0 : Nat) (u1 : Nat) (u2 : Nat) (u3 : Nat) (abv : (List Nat)) : (List Nat) :=
   get_core (Nat.shiftRight (Nat.land u0 (192 : Nat)) (6 : Nat)) (Nat.shiftRight (Nat.land u0 (48 : Nat)) (4 : Nat)) (Nat.shiftRight (Nat.land u0 (12 : Nat)) (2 : Nat)) (Nat.land u0 (3 : Nat)) (Nat.shiftRight (Nat.land u1 (192 : Nat)) (6 : Nat)) (Nat.shiftRight (Nat.land u1 (48 : Nat)) (4 : Nat)) (Nat.shiftRight (Nat.land u1 (14 : Nat)) (1 : Nat)) (Nat.lor (Nat.mod (Nat.shiftLeft (Nat.land u1 (1 : Nat)) (2 : Nat)) 256) (Nat.shiftRight (Nat.land u2 (192 : Nat)) (6 : Nat))) (Nat.shiftRight (Nat.land u2 (48 : Nat)) (4 : Nat)) (Nat.shiftRight (Nat.land u2 (14 : Nat)) (1 : Nat)) (Nat.lor (Nat.mod (Nat.shiftLeft (Nat.land u2 (1 : Nat)) (2 : Nat)) 256) (Nat.shiftRight (Nat.land u3 (192 : Nat)) (6 : Nat))) (Nat.shiftRight (Nat.land u3 (48 : Nat)) (4 : Nat)) (Nat.shiftRight (Nat.land u3 (12 : Nat)) (2 : Nat)) (Nat.land u3 (3 : Nat)) abv
 
-/-- lenVec  (/repo/20/cvss20.go:134:1) -/
---   r0 := (cvss20.u0 & 0b11000000) >> 6
---   r1 := (cvss20.u0 & 0b00110000) >> 4
---   r2 := (cvss20.u0 & 0b00001100) >> 2
---   r3 := cvss20.u0 & 0b00000011
---   r4 := (cvss20.u1 & 0b11000000) >> 6
---   r5 := (cvss20.u1 & 0b00110000) >> 4
---   r6 := (cvss20.u1 & 0b00001110) >> 1
---   r7 := ((cvss20.u1 & 0b00000001) << 2) | ((cvss20.u2 & 0b11000000) >> 6)
---   r8 := (cvss20.u2 & 0b00110000) >> 4
---   r9 := (cvss20.u2 & 0b00001110) >> 1
---   r10 := ((cvss20.u2 & 0b00000001) << 2) | ((cvss20.u3 & 0b11000000) >> 6)
---   r11 := (cvss20.u3 & 0b00110000) >> 4
---   r12 := (cvss20.u3 & 0b00001100) >> 2
---   r13 := cvss20.u3 & 0b00000011
+/-- lenVec  (cvss20.go) -/
+--   r0 := (Nat.shiftRight (Nat.land u0 (192 : Nat)) (6 : Nat))
+--   r1 := (Nat.shiftRight (Nat.land u0 (48 : Nat)) (4 : Nat))
+--   r2 := (Nat.shiftRight (Nat.land u0 (12 : Nat)) (2 : Nat))
+--   r3 := (Nat.land u0 (3 : Nat))
+--   r4 := (Nat.shiftRight (Nat.land u1 (192 : Nat)) (6 : Nat))
+--   r5 := (Nat.shiftRight (Nat.land u1 (48 : Nat)) (4 : Nat))
+--   r6 := (Nat.shiftRight (Nat.land u1 (14 : Nat)) (1 : Nat))
+--   r7 := (Nat.lor (Nat.mod (Nat.shiftLeft (Nat.land u1 (1 : Nat)) (2 : Nat)) 256) (Nat.shiftRight (Nat.land u2 (192 : Nat)) (6 : Nat)))
+--   r8 := (Nat.shiftRight (Nat.land u2 (48 : Nat)) (4 : Nat))
+--   r9 := (Nat.shiftRight (Nat.land u2 (14 : Nat)) (1 : Nat))
+--   r10 := (Nat.lor (Nat.mod (Nat.shiftLeft (Nat.land u2 (1 : Nat)) (2 : Nat)) 256) (Nat.shiftRight (Nat.land u3 (192 : Nat)) (6 : Nat)))
+--   r11 := (Nat.shiftRight (Nat.land u3 (48 : Nat)) (4 : Nat))
+--   r12 := (Nat.shiftRight (Nat.land u3 (12 : Nat)) (2 : Nat))
+--   r13 := (Nat.land u3 (3 : Nat))
 def lenVec_core (r0 : Nat) (r1 : Nat) (r2 : Nat) (r3 : Nat) (r4 : Nat) (r5 : Nat) (r6 : Nat) (r7 : Nat) (r8 : Nat) (r9 : Nat) (r10 : Nat) (r11 : Nat) (r12 : Nat) (r13 : Nat) : Nat :=
   F64.flet (26 : Nat) fun l =>
   let e_ := (GenV20.get_core r0 r1 r2 r3 r4 r5 r6 r7 r8 r9 r10 r11 r12 r13 ([69] : List Nat) /- E -/)
@@ -417,27 +417,27 @@ def lenVec_core (r0 : Nat) (r1 : Nat) (r2 : Nat) (r3 : Nat) (r4 : Nat) (r5 : Nat
 def lenVec (u0 : Nat) (u1 : Nat) (u2 : Nat) (u3 : Nat) : Nat :=
   lenVec_core (Nat.shiftRight (Nat.land u0 (192 : Nat)) (6 : Nat)) (Nat.shiftRight (Nat.land u0 (48 : Nat)) (4 : Nat)) (Nat.shiftRight (Nat.land u0 (12 : Nat)) (2 : Nat)) (Nat.land u0 (3 : Nat)) (Nat.shiftRight (Nat.land u1 (192 : Nat)) (6 : Nat)) (Nat.shiftRight (Nat.land u1 (48 : Nat)) (4 : Nat)) (Nat.shiftRight (Nat.land u1 (14 : Nat)) (1 : Nat)) (Nat.lor (Nat.mod (Nat.shiftLeft (Nat.land u1 (1 : Nat)) (2 : Nat)) 256) (Nat.shiftRight (Nat.land u2 (192 : Nat)) (6 : Nat))) (Nat.shiftRight (Nat.land u2 (48 : Nat)) (4 : Nat)) (Nat.shiftRight (Nat.land u2 (14 : Nat)) (1 : Nat)) (Nat.lor (Nat.mod (Nat.shiftLeft (Nat.land u2 (1 : Nat)) (2 : Nat)) 256) (Nat.shiftRight (Nat.land u3 (192 : Nat)) (6 : Nat))) (Nat.shiftRight (Nat.land u3 (48 : Nat)) (4 : Nat)) (Nat.shiftRight (Nat.land u3 (12 : Nat)) (2 : Nat)) (Nat.land u3 (3 : Nat))
 
-/-- app  (/repo/20/cvss20.go:167:1) -/
+/-- app  (cvss20.go) -/
 def app (b : (List Nat)) (pre : (List Nat)) (v : (List Nat)) : (List Nat) :=
   let b := (b ++ pre)
   let b := (b ++ v)
   b
 
-/-- Vector  (/repo/20/cvss20.go:100:1) -/
---   r0 := (cvss20.u0 & 0b11000000) >> 6
---   r1 := (cvss20.u0 & 0b00110000) >> 4
---   r2 := (cvss20.u0 & 0b00001100) >> 2
---   r3 := cvss20.u0 & 0b00000011
---   r4 := (cvss20.u1 & 0b11000000) >> 6
---   r5 := (cvss20.u1 & 0b00110000) >> 4
---   r6 := (cvss20.u1 & 0b00001110) >> 1
---   r7 := ((cvss20.u1 & 0b00000001) << 2) | ((cvss20.u2 & 0b11000000) >> 6)
---   r8 := (cvss20.u2 & 0b00110000) >> 4
---   r9 := (cvss20.u2 & 0b00001110) >> 1
---   r10 := ((cvss20.u2 & 0b00000001) << 2) | ((cvss20.u3 & 0b11000000) >> 6)
---   r11 := (cvss20.u3 & 0b00110000) >> 4
---   r12 := (cvss20.u3 & 0b00001100) >> 2
---   r13 := cvss20.u3 & 0b00000011
+/-- Vector  (cvss20.go) -/
+--   r0 := (Nat.shiftRight (Nat.land u0 (192 : Nat)) (6 : Nat))
+--   r1 := (Nat.shiftRight (Nat.land u0 (48 : Nat)) (4 : Nat))
+--   r2 := (Nat.shiftRight (Nat.land u0 (12 : Nat)) (2 : Nat))
+--   r3 := (Nat.land u0 (3 : Nat))
+--   r4 := (Nat.shiftRight (Nat.land u1 (192 : Nat)) (6 : Nat))
+--   r5 := (Nat.shiftRight (Nat.land u1 (48 : Nat)) (4 : Nat))
+--   r6 := (Nat.shiftRight (Nat.land u1 (14 : Nat)) (1 : Nat))
+--   r7 := (Nat.lor (Nat.mod (Nat.shiftLeft (Nat.land u1 (1 : Nat)) (2 : Nat)) 256) (Nat.shiftRight (Nat.land u2 (192 : Nat)) (6 : Nat)))
+--   r8 := (Nat.shiftRight (Nat.land u2 (48 : Nat)) (4 : Nat))
+--   r9 := (Nat.shiftRight (Nat.land u2 (14 : Nat)) (1 : Nat))
+--   r10 := (Nat.lor (Nat.mod (Nat.shiftLeft (Nat.land u2 (1 : Nat)) (2 : Nat)) 256) (Nat.shiftRight (Nat.land u3 (192 : Nat)) (6 : Nat)))
+--   r11 := (Nat.shiftRight (Nat.land u3 (48 : Nat)) (4 : Nat))
+--   r12 := (Nat.shiftRight (Nat.land u3 (12 : Nat)) (2 : Nat))
+--   r13 := (Nat.land u3 (3 : Nat))
 def Vector_core (r0 : Nat) (r1 : Nat) (r2 : Nat) (r3 : Nat) (r4 : Nat) (r5 : Nat) (r6 : Nat) (r7 : Nat) (r8 : Nat) (r9 : Nat) (r10 : Nat) (r11 : Nat) (r12 : Nat) (r13 : Nat) : (List Nat) :=
   F64.flet (GenV20.lenVec_core r0 r1 r2 r3 r4 r5 r6 r7 r8 r9 r10 r11 r12 r13) fun l =>
   let b := ([] : List Nat)
@@ -473,10 +473,18 @@ def Vector_core (r0 : Nat) (r1 : Nat) (r2 : Nat) (r3 : Nat) (r4 : Nat) (r5 : Nat
   | b =>
   b
 
+/-- capacity argument of the `make` in Vector -/
+def Vector_cap_core (r0 : Nat) (r1 : Nat) (r2 : Nat) (r3 : Nat) (r4 : Nat) (r5 : Nat) (r6 : Nat) (r7 : Nat) (r8 : Nat) (r9 : Nat) (r10 : Nat) (r11 : Nat) (r12 : Nat) (r13 : Nat) : Nat :=
+  F64.flet (GenV20.lenVec_core r0 r1 r2 r3 r4 r5 r6 r7 r8 r9 r10 r11 r12 r13) fun l =>
+  l
+
 def Vector (u0 : Nat) (u1 : Nat) (u2 : Nat) (u3 : Nat) : (List Nat) :=
   Vector_core (Nat.shiftRight (Nat.land u0 (192 : Nat)) (6 : Nat)) (Nat.shiftRight (Nat.land u0 (48 : Nat)) (4 : Nat)) (Nat.shiftRight (Nat.land u0 (12 : Nat)) (2 : Nat)) (Nat.land u0 (3 : Nat)) (Nat.shiftRight (Nat.land u1 (192 : Nat)) (6 : Nat)) (Nat.shiftRight (Nat.land u1 (48 : Nat)) (4 : Nat)) (Nat.shiftRight (Nat.land u1 (14 : Nat)) (1 : Nat)) (Nat.lor (Nat.mod (Nat.shiftLeft (Nat.land u1 (1 : Nat)) (2 : Nat)) 256) (Nat.shiftRight (Nat.land u2 (192 : Nat)) (6 : Nat))) (Nat.shiftRight (Nat.land u2 (48 : Nat)) (4 : Nat)) (Nat.shiftRight (Nat.land u2 (14 : Nat)) (1 : Nat)) (Nat.lor (Nat.mod (Nat.shiftLeft (Nat.land u2 (1 : Nat)) (2 : Nat)) 256) (Nat.shiftRight (Nat.land u3 (192 : Nat)) (6 : Nat))) (Nat.shiftRight (Nat.land u3 (48 : Nat)) (4 : Nat)) (Nat.shiftRight (Nat.land u3 (12 : Nat)) (2 : Nat)) (Nat.land u3 (3 : Nat))
 
-/-- cia  (/repo/20/cvss20.go:576:1) -/
+def Vector_cap (u0 : Nat) (u1 : Nat) (u2 : Nat) (u3 : Nat) : Nat :=
+  Vector_cap_core (Nat.shiftRight (Nat.land u0 (192 : Nat)) (6 : Nat)) (Nat.shiftRight (Nat.land u0 (48 : Nat)) (4 : Nat)) (Nat.shiftRight (Nat.land u0 (12 : Nat)) (2 : Nat)) (Nat.land u0 (3 : Nat)) (Nat.shiftRight (Nat.land u1 (192 : Nat)) (6 : Nat)) (Nat.shiftRight (Nat.land u1 (48 : Nat)) (4 : Nat)) (Nat.shiftRight (Nat.land u1 (14 : Nat)) (1 : Nat)) (Nat.lor (Nat.mod (Nat.shiftLeft (Nat.land u1 (1 : Nat)) (2 : Nat)) 256) (Nat.shiftRight (Nat.land u2 (192 : Nat)) (6 : Nat))) (Nat.shiftRight (Nat.land u2 (48 : Nat)) (4 : Nat)) (Nat.shiftRight (Nat.land u2 (14 : Nat)) (1 : Nat)) (Nat.lor (Nat.mod (Nat.shiftLeft (Nat.land u2 (1 : Nat)) (2 : Nat)) 256) (Nat.shiftRight (Nat.land u3 (192 : Nat)) (6 : Nat))) (Nat.shiftRight (Nat.land u3 (48 : Nat)) (4 : Nat)) (Nat.shiftRight (Nat.land u3 (12 : Nat)) (2 : Nat)) (Nat.land u3 (3 : Nat))
+
+/-- cia  (cvss20.go) -/
 def cia (v : Nat) : Nat :=
   cond ((Nat.beq v (0 : Nat)))
     ((0x0000000000000000 : Nat))
@@ -486,10 +494,10 @@ def cia (v : Nat) : Nat :=
     ((0x3fe51eb851eb851f : Nat))
    ((0x7FF8DEAD00000000 : Nat))))
 
-/-- Impact  (/repo/20/cvss20.go:489:1) -/
---   r0 := cvss20.u0 & 0b00000011
---   r1 := (cvss20.u1 & 0b11000000) >> 6
---   r2 := (cvss20.u1 & 0b00110000) >> 4
+/-- Impact  (cvss20.go) -/
+--   r0 := (Nat.land u0 (3 : Nat))
+--   r1 := (Nat.shiftRight (Nat.land u1 (192 : Nat)) (6 : Nat))
+--   r2 := (Nat.shiftRight (Nat.land u1 (48 : Nat)) (4 : Nat))
 def Impact_core (r0 : Nat) (r1 : Nat) (r2 : Nat) : Nat :=
   F64.flet (GenV20.cia r0) fun c =>
   F64.flet (GenV20.cia r1) fun i =>
@@ -499,7 +507,7 @@ def Impact_core (r0 : Nat) (r1 : Nat) (r2 : Nat) : Nat :=
 def Impact (u0 : Nat) (u1 : Nat) (u2 : Nat) (u3 : Nat) : Nat :=
   Impact_core (Nat.land u0 (3 : Nat)) (Nat.shiftRight (Nat.land u1 (192 : Nat)) (6 : Nat)) (Nat.shiftRight (Nat.land u1 (48 : Nat)) (4 : Nat))
 
-/-- accessVector  (/repo/20/cvss20.go:537:1) -/
+/-- accessVector  (cvss20.go) -/
 def accessVector (v : Nat) : Nat :=
   cond ((Nat.beq v (0 : Nat)))
     ((0x3fd947ae147ae148 : Nat))
@@ -509,7 +517,7 @@ def accessVector (v : Nat) : Nat :=
     ((0x3ff0000000000000 : Nat))
    ((0x7FF8DEAD00000000 : Nat))))
 
-/-- accessComplexity  (/repo/20/cvss20.go:550:1) -/
+/-- accessComplexity  (cvss20.go) -/
 def accessComplexity (v : Nat) : Nat :=
   cond ((Nat.beq v (2 : Nat)))
     ((0x3fd6666666666666 : Nat))
@@ -519,7 +527,7 @@ def accessComplexity (v : Nat) : Nat :=
     ((0x3fe6b851eb851eb8 : Nat))
    ((0x7FF8DEAD00000000 : Nat))))
 
-/-- authentication  (/repo/20/cvss20.go:563:1) -/
+/-- authentication  (cvss20.go) -/
 def authentication (v : Nat) : Nat :=
   cond ((Nat.beq v (0 : Nat)))
     ((0x3fdccccccccccccd : Nat))
@@ -529,10 +537,10 @@ def authentication (v : Nat) : Nat :=
     ((0x3fe6872b020c49ba : Nat))
    ((0x7FF8DEAD00000000 : Nat))))
 
-/-- Exploitability  (/repo/20/cvss20.go:496:1) -/
---   r0 := (cvss20.u0 & 0b11000000) >> 6
---   r1 := (cvss20.u0 & 0b00110000) >> 4
---   r2 := (cvss20.u0 & 0b00001100) >> 2
+/-- Exploitability  (cvss20.go) -/
+--   r0 := (Nat.shiftRight (Nat.land u0 (192 : Nat)) (6 : Nat))
+--   r1 := (Nat.shiftRight (Nat.land u0 (48 : Nat)) (4 : Nat))
+--   r2 := (Nat.shiftRight (Nat.land u0 (12 : Nat)) (2 : Nat))
 def Exploitability_core (r0 : Nat) (r1 : Nat) (r2 : Nat) : Nat :=
   F64.flet (GenV20.accessVector r0) fun av =>
   F64.flet (GenV20.accessComplexity r1) fun ac =>
@@ -542,17 +550,17 @@ def Exploitability_core (r0 : Nat) (r1 : Nat) (r2 : Nat) : Nat :=
 def Exploitability (u0 : Nat) (u1 : Nat) (u2 : Nat) (u3 : Nat) : Nat :=
   Exploitability_core (Nat.shiftRight (Nat.land u0 (192 : Nat)) (6 : Nat)) (Nat.shiftRight (Nat.land u0 (48 : Nat)) (4 : Nat)) (Nat.shiftRight (Nat.land u0 (12 : Nat)) (2 : Nat))
 
-/-- roundTo1Decimal  (/repo/20/cvss20.go:679:1) -/
+/-- roundTo1Decimal  (cvss20.go) -/
 def roundTo1Decimal (x : Nat) : Nat :=
   (F64.div (F64.round (F64.mul x (0x4024000000000000 : Nat))) (0x4024000000000000 : Nat))
 
-/-- BaseScore  (/repo/20/cvss20.go:479:1) -/
---   r0 := cvss20.u0 & 0b00000011
---   r1 := (cvss20.u1 & 0b11000000) >> 6
---   r2 := (cvss20.u1 & 0b00110000) >> 4
---   r3 := (cvss20.u0 & 0b11000000) >> 6
---   r4 := (cvss20.u0 & 0b00110000) >> 4
---   r5 := (cvss20.u0 & 0b00001100) >> 2
+/-- BaseScore  (cvss20.go) -/
+--   r0 := (Nat.land u0 (3 : Nat))
+--   r1 := (Nat.shiftRight (Nat.land u1 (192 : Nat)) (6 : Nat))
+--   r2 := (Nat.shiftRight (Nat.land u1 (48 : Nat)) (4 : Nat))
+--   r3 := (Nat.shiftRight (Nat.land u0 (192 : Nat)) (6 : Nat))
+--   r4 := (Nat.shiftRight (Nat.land u0 (48 : Nat)) (4 : Nat))
+--   r5 := (Nat.shiftRight (Nat.land u0 (12 : Nat)) (2 : Nat))
 def BaseScore_core (r0 : Nat) (r1 : Nat) (r2 : Nat) (r3 : Nat) (r4 : Nat) (r5 : Nat) : Nat :=
   F64.flet (GenV20.Impact_core r0 r1 r2) fun impact =>
   F64.flet (0x0000000000000000 : Nat) fun fimpact =>
@@ -567,7 +575,7 @@ def BaseScore_core (r0 : Nat) (r1 : Nat) (r2 : Nat) (r3 : Nat) (r4 : Nat) (r5 : 
 def BaseScore (u0 : Nat) (u1 : Nat) (u2 : Nat) (u3 : Nat) : Nat :=
   BaseScore_core (Nat.land u0 (3 : Nat)) (Nat.shiftRight (Nat.land u1 (192 : Nat)) (6 : Nat)) (Nat.shiftRight (Nat.land u1 (48 : Nat)) (4 : Nat)) (Nat.shiftRight (Nat.land u0 (192 : Nat)) (6 : Nat)) (Nat.shiftRight (Nat.land u0 (48 : Nat)) (4 : Nat)) (Nat.shiftRight (Nat.land u0 (12 : Nat)) (2 : Nat))
 
-/-- exploitability  (/repo/20/cvss20.go:589:1) -/
+/-- exploitability  (cvss20.go) -/
 def exploitability (v : Nat) : Nat :=
   cond ((Nat.beq v (1 : Nat)))
     ((0x3feb333333333333 : Nat))
@@ -579,7 +587,7 @@ def exploitability (v : Nat) : Nat :=
     ((0x3ff0000000000000 : Nat))
    ((0x7FF8DEAD00000000 : Nat)))))
 
-/-- remediationLevel  (/repo/20/cvss20.go:604:1) -/
+/-- remediationLevel  (cvss20.go) -/
 def remediationLevel (v : Nat) : Nat :=
   cond ((Nat.beq v (1 : Nat)))
     ((0x3febd70a3d70a3d7 : Nat))
@@ -591,7 +599,7 @@ def remediationLevel (v : Nat) : Nat :=
     ((0x3ff0000000000000 : Nat))
    ((0x7FF8DEAD00000000 : Nat)))))
 
-/-- reportConfidence  (/repo/20/cvss20.go:619:1) -/
+/-- reportConfidence  (cvss20.go) -/
 def reportConfidence (v : Nat) : Nat :=
   cond ((Nat.beq v (1 : Nat)))
     ((0x3feccccccccccccd : Nat))
@@ -601,16 +609,16 @@ def reportConfidence (v : Nat) : Nat :=
     ((0x3ff0000000000000 : Nat))
    ((0x7FF8DEAD00000000 : Nat))))
 
-/-- TemporalScore  (/repo/20/cvss20.go:504:1) -/
---   r0 := (cvss20.u1 & 0b00001110) >> 1
---   r1 := ((cvss20.u1 & 0b00000001) << 2) | ((cvss20.u2 & 0b11000000) >> 6)
---   r2 := (cvss20.u2 & 0b00110000) >> 4
---   r3 := cvss20.u0 & 0b00000011
---   r4 := (cvss20.u1 & 0b11000000) >> 6
---   r5 := (cvss20.u1 & 0b00110000) >> 4
---   r6 := (cvss20.u0 & 0b11000000) >> 6
---   r7 := (cvss20.u0 & 0b00110000) >> 4
---   r8 := (cvss20.u0 & 0b00001100) >> 2
+/-- TemporalScore  (cvss20.go) -/
+--   r0 := (Nat.shiftRight (Nat.land u1 (14 : Nat)) (1 : Nat))
+--   r1 := (Nat.lor (Nat.mod (Nat.shiftLeft (Nat.land u1 (1 : Nat)) (2 : Nat)) 256) (Nat.shiftRight (Nat.land u2 (192 : Nat)) (6 : Nat)))
+--   r2 := (Nat.shiftRight (Nat.land u2 (48 : Nat)) (4 : Nat))
+--   r3 := (Nat.land u0 (3 : Nat))
+--   r4 := (Nat.shiftRight (Nat.land u1 (192 : Nat)) (6 : Nat))
+--   r5 := (Nat.shiftRight (Nat.land u1 (48 : Nat)) (4 : Nat))
+--   r6 := (Nat.shiftRight (Nat.land u0 (192 : Nat)) (6 : Nat))
+--   r7 := (Nat.shiftRight (Nat.land u0 (48 : Nat)) (4 : Nat))
+--   r8 := (Nat.shiftRight (Nat.land u0 (12 : Nat)) (2 : Nat))
 def TemporalScore_core (r0 : Nat) (r1 : Nat) (r2 : Nat) (r3 : Nat) (r4 : Nat) (r5 : Nat) (r6 : Nat) (r7 : Nat) (r8 : Nat) : Nat :=
   F64.flet (GenV20.exploitability r0) fun e_ =>
   F64.flet (GenV20.remediationLevel r1) fun rl =>
@@ -620,7 +628,7 @@ def TemporalScore_core (r0 : Nat) (r1 : Nat) (r2 : Nat) (r3 : Nat) (r4 : Nat) (r
 def TemporalScore (u0 : Nat) (u1 : Nat) (u2 : Nat) (u3 : Nat) : Nat :=
   TemporalScore_core (Nat.shiftRight (Nat.land u1 (14 : Nat)) (1 : Nat)) (Nat.lor (Nat.mod (Nat.shiftLeft (Nat.land u1 (1 : Nat)) (2 : Nat)) 256) (Nat.shiftRight (Nat.land u2 (192 : Nat)) (6 : Nat))) (Nat.shiftRight (Nat.land u2 (48 : Nat)) (4 : Nat)) (Nat.land u0 (3 : Nat)) (Nat.shiftRight (Nat.land u1 (192 : Nat)) (6 : Nat)) (Nat.shiftRight (Nat.land u1 (48 : Nat)) (4 : Nat)) (Nat.shiftRight (Nat.land u0 (192 : Nat)) (6 : Nat)) (Nat.shiftRight (Nat.land u0 (48 : Nat)) (4 : Nat)) (Nat.shiftRight (Nat.land u0 (12 : Nat)) (2 : Nat))
 
-/-- ciar  (/repo/20/cvss20.go:664:1) -/
+/-- ciar  (cvss20.go) -/
 def ciar (v : Nat) : Nat :=
   cond ((Nat.beq v (1 : Nat)))
     ((0x3fe0000000000000 : Nat))
@@ -630,7 +638,7 @@ def ciar (v : Nat) : Nat :=
     ((0x3ff828f5c28f5c29 : Nat))
    ((0x7FF8DEAD00000000 : Nat))))
 
-/-- collateralDamagePotential  (/repo/20/cvss20.go:632:1) -/
+/-- collateralDamagePotential  (cvss20.go) -/
 def collateralDamagePotential (v : Nat) : Nat :=
   cond ((Nat.beq v (1 : Nat)) || (Nat.beq v (0 : Nat)))
     ((0x0000000000000000 : Nat))
@@ -644,7 +652,7 @@ def collateralDamagePotential (v : Nat) : Nat :=
     ((0x3fe0000000000000 : Nat))
    ((0x7FF8DEAD00000000 : Nat))))))
 
-/-- targetDistribution  (/repo/20/cvss20.go:649:1) -/
+/-- targetDistribution  (cvss20.go) -/
 def targetDistribution (v : Nat) : Nat :=
   cond ((Nat.beq v (1 : Nat)))
     ((0x0000000000000000 : Nat))
@@ -656,21 +664,21 @@ def targetDistribution (v : Nat) : Nat :=
     ((0x3ff0000000000000 : Nat))
    ((0x7FF8DEAD00000000 : Nat)))))
 
-/-- EnvironmentalScore  (/repo/20/cvss20.go:512:1) -/
---   r0 := cvss20.u0 & 0b00000011
---   r1 := (cvss20.u1 & 0b11000000) >> 6
---   r2 := (cvss20.u1 & 0b00110000) >> 4
---   r3 := (cvss20.u3 & 0b00110000) >> 4
---   r4 := (cvss20.u3 & 0b00001100) >> 2
---   r5 := cvss20.u3 & 0b00000011
---   r6 := (cvss20.u0 & 0b11000000) >> 6
---   r7 := (cvss20.u0 & 0b00110000) >> 4
---   r8 := (cvss20.u0 & 0b00001100) >> 2
---   r9 := (cvss20.u1 & 0b00001110) >> 1
---   r10 := ((cvss20.u1 & 0b00000001) << 2) | ((cvss20.u2 & 0b11000000) >> 6)
---   r11 := (cvss20.u2 & 0b00110000) >> 4
---   r12 := (cvss20.u2 & 0b00001110) >> 1
---   r13 := ((cvss20.u2 & 0b00000001) << 2) | ((cvss20.u3 & 0b11000000) >> 6)
+/-- EnvironmentalScore  (cvss20.go) -/
+--   r0 := (Nat.land u0 (3 : Nat))
+--   r1 := (Nat.shiftRight (Nat.land u1 (192 : Nat)) (6 : Nat))
+--   r2 := (Nat.shiftRight (Nat.land u1 (48 : Nat)) (4 : Nat))
+--   r3 := (Nat.shiftRight (Nat.land u3 (48 : Nat)) (4 : Nat))
+--   r4 := (Nat.shiftRight (Nat.land u3 (12 : Nat)) (2 : Nat))
+--   r5 := (Nat.land u3 (3 : Nat))
+--   r6 := (Nat.shiftRight (Nat.land u0 (192 : Nat)) (6 : Nat))
+--   r7 := (Nat.shiftRight (Nat.land u0 (48 : Nat)) (4 : Nat))
+--   r8 := (Nat.shiftRight (Nat.land u0 (12 : Nat)) (2 : Nat))
+--   r9 := (Nat.shiftRight (Nat.land u1 (14 : Nat)) (1 : Nat))
+--   r10 := (Nat.lor (Nat.mod (Nat.shiftLeft (Nat.land u1 (1 : Nat)) (2 : Nat)) 256) (Nat.shiftRight (Nat.land u2 (192 : Nat)) (6 : Nat)))
+--   r11 := (Nat.shiftRight (Nat.land u2 (48 : Nat)) (4 : Nat))
+--   r12 := (Nat.shiftRight (Nat.land u2 (14 : Nat)) (1 : Nat))
+--   r13 := (Nat.lor (Nat.mod (Nat.shiftLeft (Nat.land u2 (1 : Nat)) (2 : Nat)) 256) (Nat.shiftRight (Nat.land u3 (192 : Nat)) (6 : Nat)))
 def EnvironmentalScore_core (r0 : Nat) (r1 : Nat) (r2 : Nat) (r3 : Nat) (r4 : Nat) (r5 : Nat) (r6 : Nat) (r7 : Nat) (r8 : Nat) (r9 : Nat) (r10 : Nat) (r11 : Nat) (r12 : Nat) (r13 : Nat) : Nat :=
   F64.flet (GenV20.cia r0) fun c =>
   F64.flet (GenV20.cia r1) fun i =>
@@ -698,15 +706,17 @@ def EnvironmentalScore_core (r0 : Nat) (r1 : Nat) (r2 : Nat) (r3 : Nat) (r4 : Na
 def EnvironmentalScore (u0 : Nat) (u1 : Nat) (u2 : Nat) (u3 : Nat) : Nat :=
   EnvironmentalScore_core (Nat.land u0 (3 : Nat)) (Nat.shiftRight (Nat.land u1 (192 : Nat)) (6 : Nat)) (Nat.shiftRight (Nat.land u1 (48 : Nat)) (4 : Nat)) (Nat.shiftRight (Nat.land u3 (48 : Nat)) (4 : Nat)) (Nat.shiftRight (Nat.land u3 (12 : Nat)) (2 : Nat)) (Nat.land u3 (3 : Nat)) (Nat.shiftRight (Nat.land u0 (192 : Nat)) (6 : Nat)) (Nat.shiftRight (Nat.land u0 (48 : Nat)) (4 : Nat)) (Nat.shiftRight (Nat.land u0 (12 : Nat)) (2 : Nat)) (Nat.shiftRight (Nat.land u1 (14 : Nat)) (1 : Nat)) (Nat.lor (Nat.mod (Nat.shiftLeft (Nat.land u1 (1 : Nat)) (2 : Nat)) 256) (Nat.shiftRight (Nat.land u2 (192 : Nat)) (6 : Nat))) (Nat.shiftRight (Nat.land u2 (48 : Nat)) (4 : Nat)) (Nat.shiftRight (Nat.land u2 (14 : Nat)) (1 : Nat)) (Nat.lor (Nat.mod (Nat.shiftLeft (Nat.land u2 (1 : Nat)) (2 : Nat)) 256) (Nat.shiftRight (Nat.land u3 (192 : Nat)) (6 : Nat)))
 
-/-- table order (/repo/20/cvss20.go:10:5) -/
+/-- table order (cvss20.go) -/
 def tbl_order : (List (List (List Nat))) :=
   [[([65, 86] : List Nat), ([65, 67] : List Nat), ([65, 117] : List Nat), ([67] : List Nat), ([73] : List Nat), ([65] : List Nat)], [([69] : List Nat), ([82, 76] : List Nat), ([82, 67] : List Nat)], [([67, 68, 80] : List Nat), ([84, 68] : List Nat), ([67, 82] : List Nat), ([73, 82] : List Nat), ([65, 82] : List Nat)]]
 
-/-- sha256 of the printed source of ParseVector (/repo/20/cvss20.go:17:1) -/
-def srchash_ParseVector : String := "6ba832cb7d7b2587"
+/-- fields of the object type (name:type), in declaration order -/
+def obj_fields : List String :=
+  ["u0:uint8", "u1:uint8", "u2:uint8", "u3:uint8"]
 
-/-- sha256 of the printed source of split (/repo/20/cvss20.go:79:1) -/
-def srchash_split : String := "878dcaa8ae6b288d"
+/-- methods of the object type with a pointer receiver (the only ones that can change the object) -/
+def obj_ptr_methods : List String :=
+  ["Set"]
 
 /-- `init` functions of the package (file:init) -/
 def pkg_inits : List String :=
